@@ -407,11 +407,11 @@ func e1Careful(prop, tier, level string, seed int) (map[string]string, *e1SeedRe
 			cur, _ := os.ReadFile(tf.Name())
 			if !bytes.Equal(cur, last) {
 				last, lastChange = cur, time.Now()
-			} else if time.Since(lastChange) > 25*time.Second {
+			} else if time.Since(lastChange) > 60*time.Second {
 				var m map[string]string
 				_ = json.Unmarshal(cur, &m)
 				if m != nil {
-					m["event"] = "no progress for 25 s on this input (hang or time budget exceeded)"
+					m["event"] = "no progress for 60 s on this input (hang or time budget exceeded)"
 				}
 				return m, nil
 			}
